@@ -327,7 +327,7 @@ func c03r4(r *R) {
 		atoms = append(atoms, as...)
 	}
 	idx := "(1 + phi((1 + phi@)|-1))"
-	minE := "phi(builtin.len(p0.Priorities)|p1)"
+	minE := "min(builtin.len(p0.Priorities), p1)" // the if-idiom and the builtin both render so (selPhi)
 	pIdx := "p0.Priorities[" + idx + "]"
 	name := "p0.Headers[" + idx + "].Name"
 	symSId, symSVal := "num(p0.Settings["+idx+"].Id)", "num(p0.Settings["+idx+"].Val)"
@@ -401,21 +401,15 @@ func c03r4(r *R) {
 	}
 	// ---- P part
 	oP := r.Ob("C03.R4", "priority-part").At(m.Pos())
-	// the min: an If on len(Priorities) < max selecting len on its true edge
+	// the number of entries rendered is min(len(Priorities), max): the slice bound of the priorities loop
 	okMin := false
 	eachInstr(m, func(i ssa.Instruction) {
-		phi, ok := i.(*ssa.Phi)
-		if !ok || c.Expr(phi) != minE || len(phi.Edges) != 2 {
-			return
-		}
-		for k, e := range phi.Edges {
-			pred := phi.Block().Preds[k]
-			if c.Expr(e) == "builtin.len(p0.Priorities)" {
-				okMin = hasGuard(c.guardStrs(pred), "+(builtin.len(p0.Priorities) < p1)")
-			}
+		if sl, ok := i.(*ssa.Slice); ok && sl.High != nil && c.Expr(sl.X) == "p0.Priorities" && sl.Low == nil {
+			okMin = c.ExprAt(sl.High, sl.Block()) == minE
+			oP.AtI(i)
 		}
 	})
-	oP.Check(okMin, "the number of priority entries rendered is not min(len(f.Priorities), maxPriorityFrames) (phi of the two under `len < max`)")
+	oP.Check(okMin, "the number of priority entries rendered is not min(len(f.Priorities), maxPriorityFrames)")
 	inPrioLoop := func(gs []string) bool {
 		return hasGuardContaining(gs, "+", " < "+minE+")") && hasGuard(gs, "-(0 == "+minE+")")
 	}
